@@ -77,6 +77,9 @@ def names_of(file):
 
 
 def norm(a):
+    if "panic" in a:
+        # compare the file a panic is raised in, not the line (lines move with unrelated edits)
+        return {"panic": str(a["panic"]).split(":")[0]}
     if "io-err" in a:
         return {"err": "format"}
     if "err" in a and str(a["err"]).startswith("FormatError"):
